@@ -243,6 +243,9 @@ def _reader_common(p, styles=("file", "socket"), lemmas=()):
         p.add(CustomUnit(f"lemma.reader/{lm}", ru.lemma_unit, (lm,), props=(p.prop,), cost=5))
     # the configuration the step is quantified over is the one the constructor was given (or its documented defaults)
     p.func(R + "__init__")
+    # iteration is read() until it reports the end: nothing else stops it, nothing is skipped
+    p.func(R + "__next__")
+    p.func(R + "__iter__")
     from .units import factory_unit as _fu
     lab = f"{R}__init__[defaults]"
     p.add(CustomUnit(lab, _fu, ("contracts.reader", "_defaults_contract", None, lab), props=(p.prop,)))
@@ -274,7 +277,6 @@ def plan_C07(p, tier, seed):
     _reader_common(p, styles=("file",), lemmas=("basic[file]", "eof_at_end[file]"))
     p.func(R + "_read_bytes")
     p.func(R + "_read_line")
-    p.func(R + "__next__")
     p.add(CustomUnit("lemma.lifting/C07", ru.lifting_unit, ("C07",), props=("C07",)))
     _spec_crosscheck(p, tier, seed)
     p.min_obligations = 1000
@@ -294,7 +296,6 @@ def plan_C06(p, tier, seed):
         "segments (position is always a segment start).")
     _reader_common(p, lemmas=("segment[noise]", "segment[ubx]", "segment[nmea]", "segment[rtcm]", "basic[file]",
                                "eof_at_end[file]"))
-    p.func(R + "__next__")
     _spec_crosscheck(p, tier, seed)
     p.min_obligations = 2000
     _step_canary(p, "parse_ubx-short-by-one", "self._read_bytes(leni + 2)", "self._read_bytes(leni + 1)")
@@ -540,6 +541,8 @@ def plan_C13(p, tier, seed):
         p.add(CustomUnit(f"{M}{meth}[immutable, any name]", factory_unit,
                          ("contracts.message", "immutable_any_name", meth, f"{M}{meth}[immutable, any name]"), props=("C13",)))
     _instance_units(p, r"/(modifies|ensures:immutable|.*loop1:frame)")
+    # the keyword route builds messages through other branches of the same walker: same frame and immutability clauses
+    _kw_units(p, r"/(modifies|ensures:immutable|.*:frame)")
     for f in ("serialize", "__repr__", "_do_len_checksum", "length", "payload", "msgmode", "msg_cls", "msg_id"):
         p.func(M + f)
     for f in ("calc_checksum", "isvalid_checksum", "getinputmode", "protocol", "get_bits", "msgclass2bytes"):
@@ -588,7 +591,6 @@ def plan_C08(p, tier, seed):
     _reader_common(p, lemmas=("basic[file]", "basic[socket]"))
     p.func(R + "_read_bytes")
     p.func(R + "_read_line")
-    p.func(R + "__next__")
     for m in ("read", "readline"):
         p.func(W + m)
     p.func(H + "get_bits")
